@@ -49,7 +49,7 @@ RULE = ('random supports <= 7x7 (quick) / 10x10 (thorough), random labelling int
         'metadata subclass, memmap; caller memory unchanged); amplitudes scaled by 2^-30..2^-43 and the results un-scaled before '
         'comparison; up to 12 segments; the same two comparisons through lentil.propagate_fft (no scratch, exact and larger '
         'scratch; complex fields; off-centre supports); planes rescaled / resampled (scale 2, 3, 1/2) before they are multiplied, '
-        'segmented vs monolithic and against the rescaled plane\'s own attributes; non-trivial = at least two segments with overlapping bounding boxes, tilted chips, '
+        'segmented vs monolithic and against the rescaled plane\'s own attributes; helper.slice_offset on nine kinds of index expression (Ellipsis, tuples holding Ellipsis with/without a full slice, slice pairs) against the model; non-trivial = at least two segments with overlapping bounding boxes, tilted chips, '
         'or at least two sub-arrays')
 
 TOL = 1e-9
@@ -854,15 +854,18 @@ def oracle_f(c, impl):
     return None
 
 
-SOFF_FORMS = ['ellipsis', 'ell_full', 'ell_int', 'ell_slice', 'pair']
+SOFF_FORMS = ['ellipsis', 'ell_full', 'full_ell', 'ell_full_full', 'ell_int', 'ell_slice', 'ell_ell', 'int_ell', 'pair']
+SOFF_KIND = {'ellipsis': 0, 'ell_full': 1, 'full_ell': 1, 'ell_full_full': 1, 'ell_int': 2, 'ell_slice': 2, 'ell_ell': 2, 'int_ell': 2, 'pair': 3}
 
 
 def run_soff(c):
     """helper.slice_offset on every form of index expression a cropped sub-array can be described with"""
     lentil = C.import_lentil()
     r0, r1, c0, c1 = c['box']
-    sl = {'ellipsis': Ellipsis, 'ell_full': (Ellipsis, slice(None, None, None)), 'ell_int': (Ellipsis, 2),
-          'ell_slice': (Ellipsis, slice(1, 3)), 'pair': np.s_[r0:r1, c0:c1]}[c['form']]
+    full = slice(None, None, None)
+    sl = {'ellipsis': Ellipsis, 'ell_full': (Ellipsis, full), 'full_ell': (full, Ellipsis),
+          'ell_full_full': (Ellipsis, full, full), 'ell_int': (Ellipsis, 2), 'ell_slice': (Ellipsis, slice(1, 3)),
+          'ell_ell': (Ellipsis, Ellipsis), 'int_ell': (1, Ellipsis), 'pair': np.s_[r0:r1, c0:c1]}[c['form']]
     try:
         o = lentil.helper.slice_offset(sl, tuple(c['shape']))
     except Exception as e:
@@ -873,9 +876,9 @@ def run_soff(c):
 def oracle_soff(c, impl):
     n, m = c['shape']
     r0, r1, c0, c1 = c['box']
-    if c['form'] in ('ellipsis', 'ell_full'):
+    if SOFF_KIND[c['form']] in (0, 1):
         want = {'off': [0, 0]}                      # the whole array: no offset
-    elif c['form'] in ('ell_int', 'ell_slice'):
+    elif SOFF_KIND[c['form']] == 2:
         want = {'err': 'ValueError'}                # the offset cannot be known: refused
     else:
         want = {'off': [r0 + (r1 - r0) // 2 - n // 2, c0 + (c1 - c0) // 2 - m // 2]}
@@ -1009,8 +1012,8 @@ def enc_call(c):
 
 
 def encode(c):
-    if c['op'] == 'soff':
-        return None          # index-expression forms: decided by the oracle (slice pairs are also in the translation layer)
+    if c['op'] == 'soff':        # Model/Segment.v slice_offset_any (theorem C03_slice_offset_outcome)
+        return [9, 1, SOFF_KIND[c['form']]] + list(c['box']) + list(c['shape'])
     if c['op'] == 'relay':
         return encode_relay(c)
     if c['op'] in ('fseg', 'fcrop'):
@@ -1059,6 +1062,11 @@ def read_views(rd, L, sc):
 
 
 def decode(c, ints):
+    if c['op'] == 'soff':
+        rd = C.Reader(ints, 1)
+        res = {'err': C.ERRNAMES[rd.z()]} if rd.z() == 1 else {'off': [rd.z(), rd.z()]}
+        assert rd.done()
+        return res
     if c['op'] == 'relay':
         return decode_relay(c, ints)
     if c['op'] in ('fseg', 'fcrop'):
@@ -1215,6 +1223,8 @@ def cmp_post(a, b, what):
 
 
 def compare(c, impl, model):
+    if c['op'] == 'soff':
+        return None if impl == model else f'slice_offset({c["form"]} {c["box"]}, {c["shape"]}): implementation {impl}, model {model}'
     if c['op'] == 'relay':
         return compare_relay(c, impl, model)
     if c['op'] in ('fseg', 'fcrop'):
